@@ -117,6 +117,7 @@ type Path struct {
 	schedDet, kRandomDet      bool
 	kRandomReal               bool
 	lzwSizes                  bool
+	randZero                  bool
 	ranges                    map[string]ival // declared vRange bounds (part of the path condition)
 	intervalCuts              int
 	encLen   int
